@@ -80,6 +80,10 @@ func avKey(v AV) string {
 	case avNil:
 		return "nil"
 	case avSym:
+		if v.id == 0 && v.payload != nil {
+			// identity-less symbols (uninterpreted function applications) are identified by their arguments
+			return v.tag + "(" + avKey(v.payload) + ")#0"
+		}
 		return fmt.Sprintf("%s#%d", v.tag, v.id)
 	case avPtr:
 		return fmt.Sprintf("&o%d%s", v.o.id, v.path)
